@@ -37,13 +37,13 @@ ASSUMPTIONS = [
     "a front-end crash or error exit is an outcome and is compared like any other",
 ]
 PROBES = ["nonempty_tables", "hashseed_varied", "dirent_varied", "heap_varied", "ws_sibling", "ws_otherfs", "ws_relative", "ws_symlink",
-          "cwd_varied", "ws_symlink_inner", "ws_named_externs", "ws_named_src", "ws_named_default",
+          "cwd_varied", "pyopt_varied", "ws_symlink_inner", "ws_named_externs", "ws_named_src", "ws_named_default",
           "history_same_project", "history_other_project", "history_crashed_run", "multi_file_project", "corpus_project",
           "generated_project", "sub_run", "sub_semantic", "taint_phase_ran"]
 # the same check again, smaller, in interpreters started with assertions stripped (python -O / PYTHONOPTIMIZE=1)
 ENV_VARIANTS = [{"name": "python-O", "env": {"PYTHONOPTIMIZE": "1"}, "runs": {'quick': 5, 'thorough': 60}}]
 TIERS = {
-    "quick": {"runs": 56, "budget_s": 420, "chunk": 1, "selftest": 6, "per_run_timeout": 900},
+    "quick": {"runs": 64, "budget_s": 420, "chunk": 1, "selftest": 6, "per_run_timeout": 900},
     "thorough": {"runs": 0, "budget_s": 1800, "chunk": 1, "selftest": 12, "per_run_timeout": 900},
 }
 MIN_SECONDS = 300.0
@@ -106,9 +106,18 @@ def gen_knobs(rng, tier):
     }
 
 
-def _gen_variant(rng, baseline):
+STRATIFY = True
+WS_KINDS = ["sibling", "otherfs", "relative", "symlink", "symlink_inner", "named_externs", "named_src", "named_default"]
+DIM_CYCLE = ["ws", "hashseed", "history", "ws", "dirent", "pyopt", "ws", "heap", "cwd"]
+
+
+def _gen_variant(rng, baseline, forced_dim=None, forced_ws=None):
     v = dict(baseline)
-    dims = rng.sample(["hashseed", "dirent", "heap", "ws", "history", "cwd"], rng.choice([1, 1, 1, 2, 3]))
+    dims = rng.sample(["hashseed", "dirent", "heap", "ws", "history", "cwd", "pyopt"], rng.choice([1, 1, 1, 2, 3]))
+    if forced_dim and forced_dim not in dims:
+        dims.append(forced_dim)         # stratification: every dimension (and every workspace location) turns up regularly
+    if "pyopt" in dims:
+        v["pyopt"] = rng.choice([1, 1, 2])      # the analysing interpreter started with -O / -OO
     if "cwd" in dims:
         v["cwd"] = rng.choice(["elsewhere", "project"])       # where the process is started from (all paths stay absolute)
     if "hashseed" in dims or rng.random() < 0.5:
@@ -118,7 +127,7 @@ def _gen_variant(rng, baseline):
     if "heap" in dims:
         v["heap_pad"] = rng.choice([1, 17, 1000, 4099])
     if "ws" in dims:
-        v["ws"] = rng.choice(["sibling", "otherfs", "relative", "symlink", "symlink_inner", "named_externs", "named_src", "named_default"])
+        v["ws"] = forced_ws or rng.choice(WS_KINDS)
         if v["ws"] == "symlink_inner":
             # the workspace directory itself is a link (results kept elsewhere) and another project was analysed into it before
             v["history"] = [{"proj": "B"}] + ([{"proj": "A"}] if rng.random() < 0.3 else [])
@@ -155,8 +164,13 @@ def generate(rng, k):
     ops.append({"op": "lang", "lang": lang})
     baseline = {"op": "variant", "hashseed": 0, "dirent": "natural", "heap_pad": 0, "ws": "same", "history": []}
     ops.append(baseline)
-    for _ in range(k["n_variants"] - 1):
-        ops.append(_gen_variant(rng, baseline))
+    ri = k.get("run_index", 0)
+    for j in range(k["n_variants"] - 1):
+        if j == 0:
+            fd = DIM_CYCLE[ri % len(DIM_CYCLE)]
+            ops.append(_gen_variant(rng, baseline, fd, WS_KINDS[(ri // 3) % len(WS_KINDS)] if fd == "ws" else None))
+        else:
+            ops.append(_gen_variant(rng, baseline))
     return ops
 
 
@@ -171,7 +185,7 @@ def _write_project(d, files):
             f.write(op["content"])
 
 
-def _run_child(B, n, spec, hashseed):
+def _run_child(B, n, spec, hashseed, pyopt=0):
     trial_path = os.path.join(B, f"trial{n}.json")
     out_path = os.path.join(B, f"out{n}.json")
     for p in (out_path, out_path + ".stdio"):
@@ -183,6 +197,8 @@ def _run_child(B, n, spec, hashseed):
     if _setarch:
         cmd = [_setarch, "x86_64", "-R"] + cmd
     env = pinned_env(hashseed=str(hashseed))
+    if pyopt:
+        env["PYTHONOPTIMIZE"] = str(pyopt)
     env["HOME"] = os.path.join(B, "home")
     env["MPLCONFIGDIR"] = os.path.join(B, "home", "mpl")
     os.makedirs(env["HOME"], exist_ok=True)
@@ -298,10 +314,10 @@ def execute(trace):
             # ---- machine history: earlier separate processes into the same workspace path
             for h in v.get("history", []):
                 n_child += 1
-                _run_child(B, n_child, spec_for(projA if h["proj"] == "A" else projB, h.get("crash_at")), v.get("hashseed", 0))
+                _run_child(B, n_child, spec_for(projA if h["proj"] == "A" else projB, h.get("crash_at")), v.get("hashseed", 0), v.get("pyopt", 0))
                 hit({"A": "history_same_project", "B": "history_crashed_run" if h.get("crash_at") else "history_other_project"}[h["proj"]])
             n_child += 1
-            rec = _run_child(B, n_child, spec_for(projA), v.get("hashseed", 0))
+            rec = _run_child(B, n_child, spec_for(projA), v.get("hashseed", 0), v.get("pyopt", 0))
             if base_rec is None:
                 base_rec, base_v = rec, v
                 tables = [f for f, d in rec["files"].items() if d[3] > 0 and f.split(os.sep)[0] not in ("src", "externs")]
@@ -328,6 +344,9 @@ def execute(trace):
                 hit("ws_" + wsk)
             if v.get("history", []) != base_v.get("history", []):
                 dims.append("history")
+            if v.get("pyopt", 0) != base_v.get("pyopt", 0):
+                dims.append("pyopt")
+                hit("pyopt_varied")
             if v.get("cwd") != base_v.get("cwd") and wsk != "relative":
                 dims.append("cwd")
                 hit("cwd_varied")
@@ -392,7 +411,7 @@ def simplify(trace):
         base = ops[vidx[0]]
         for i in vidx[1:]:
             v = ops[i]
-            for dim, key in (("history", "history"), ("ws", "ws"), ("cwd", "cwd"), ("heap", "heap_pad"), ("dirent", "dirent"), ("hashseed", "hashseed")):
+            for dim, key in (("history", "history"), ("ws", "ws"), ("cwd", "cwd"), ("pyopt", "pyopt"), ("heap", "heap_pad"), ("dirent", "dirent"), ("hashseed", "hashseed")):
                 if v.get(key) != base.get(key):
                     yield dict(trace, ops=ops[:i] + [dict(v, **{key: base.get(key)})] + ops[i + 1:])
             if len(v.get("history", [])) > 1:
